@@ -276,6 +276,149 @@ def c14(tier, seed):
     )
 
 
+def c10(tier, seed):
+    q = tier == "quick"
+    return dict(
+        mc=[MC_CODES],
+        exhaustive=True,
+        rule="the whole identifier space: all 51 compile-time constants (by name) and every enumeration variant "
+             "with parameters 0..12, 16, 31, 63 (and two large Golomb moduli), through every dispatcher kind "
+             "(enum dynamic/static, ConstCode dynamic/static, FuncCodeWriter/Reader new and new_with_func(get_func), "
+             "FactoryFuncCodeReader, CodesStatsWrapper around enum / func / const, Codes::len, ConstCode::len, "
+             "FuncCodeLen) x {write, read, len} x both endiannesses x value grid; the trace names the identifier, "
+             "TLC resolves it (Dispatch!ConstCodeOf / EnumCode) and compares bytes, values, positions and lengths "
+             "with the named code's definition; FuncCode*::new must succeed exactly on the supported set. "
+             "distinct = identifiers x endianness x dispatcher kinds.",
+        units=cfg_shards("dispatch", "dispatch", 12, seed, dict(dense=40 if q else 1024)),
+    )
+
+
+def mc_adapter(b, nw):
+    return dict(name="adapter_b%d_n%d" % (b, nw), module="MC_Adapter", workers=2, timeout=1800, live=True,
+                cfg_text='SPECIFICATION Spec\nCONSTANTS WBytes = %d\n NWordsC = %d\n RetryWrites = TRUE\n'
+                         'INVARIANTS WLossFree RExact\nCHECK_DEADLOCK FALSE\n' % (b, nw))
+
+
+def c11(tier, seed):
+    q = tier == "quick"
+    units = shards("adapter", "adapter", 2 if q else 8, seed, dict(depth=3 if q else 4, nrand=200 if q else 2000),
+                   module="Trace_Adapter")
+    # transparency: bit streams through the adapter (writers over a byte sink, readers over Cursor / BufReader)
+    units += cfg_shards("wstates", "wstates", NW, seed, dict(paths=WP, ops="c01", full=0),
+                        pick={i for i in range(NW) if i % 4 == 2} if not q else {2, 6, 22, 38})
+    units += cfg_shards("rstates", "rstates", NR, seed, dict(paths=RP, ops="c02", full=0, images=1),
+                        pick={4, 5, 10, 23, 27, 32, 33, 51, 55} if not q else {4, 23, 33, 55})
+    return dict(
+        needs_gen=True,
+        level="model_checking",
+        mc=[mc_adapter(1, 3), mc_adapter(2, 3), mc_adapter(4, 3)] + ([mc_adapter(8, 2)] if not q else []),
+        rule="(a) TLC explores every fault schedule of the byte stream (every per-call byte count, Interrupted, "
+             "error) for word sizes 1, 2, 4 bytes and checks LossFree / ReadExact; (b) the real adapter over "
+             "fault-injecting Read/Write: every schedule up to a depth for u8/u16/u32, every single fault for "
+             "u64/u128, random schedules; every call into the byte stream and every adapter return is a trace "
+             "event validated by TLC against WordAdapterIO; (c) bit streams through the adapter over fault-free "
+             "byte streams validated against the same abstract machine as memory backends. "
+             "distinct = (word bytes, direction, schedule).",
+        units=units,
+    )
+
+
+def c16(tier, seed):
+    return dict(
+        exhaustive=True,
+        rule="every enumeration variant x parameter 0..64, 1000, 2^32, usize::MAX: Display -> FromStr; token "
+             "records (18 names x paren x 6 parameter classes x trailing) rendered to text and parsed: "
+             "well-formed must parse to the named code, the malformed classes of the property must be rejected; "
+             "code -> identifier -> code has identical codewords (TLC compares Enc on a grid); every identifier "
+             "constant (by name) -> code -> same identifier; out-of-range identifiers rejected; every pair of "
+             "codes with parameters <= 10 that compare equal has identical codewords.",
+        units=shards("names", "names", 1, seed, dict()),
+    )
+
+
+def c15(tier, seed):
+    q = tier == "quick"
+    return dict(
+        mc=[dict(name="stats_threads_lock", module="MC_StatsThreads", workers=4, timeout=1200, live=True,
+                 cfg_text='SPECIFICATION Spec\nCONSTANTS Threads = {1,2,3}\n PerThread = 2\n UseLock = TRUE\n'
+                          'INVARIANTS Exact MutualExclusion\nCHECK_DEADLOCK FALSE\n')],
+        rule="(a) TLC explores every interleaving of 3 threads x 2 updates through the wrapper's lock (totals exact "
+             "at quiescence, mutual exclusion); (b) real CodesStats: multisets with multiplicities (small, boundary, "
+             "large), split into <= 3 parts and merged with add, +=, +, sum in random orders, observed through "
+             "CodesStatsWrapper on writes and on reads, accumulated by 2/4/8 threads through one shared wrapper; "
+             "every snapshot of all 55 tracked totals and every best_code() answer (with the actual encoded size) "
+             "is validated by TLC, which recomputes the totals from the values with Codes!CLen in exact arithmetic.",
+        units=shards("stats", "stats", 6 if q else 24, seed, dict(rounds=8 if q else 40, threads=3 if q else 12),
+                     module="Trace_Stats"),
+    )
+
+
+def c17(tier, seed):
+    q = tier == "quick"
+    near, pw = (8, 5) if q else (16, 10)
+    units = [dict(kind="record", name="zigzag-%d" % part, driver="zigzag", module="Trace_Pure", variant=REL,
+                  args=dict(seed=seed * 10 + part, part=part, near=near, pow=pw)) for part in range(5)]
+    if not q:
+        # more random values and the dev profile (overflow checks) as well
+        units += [dict(kind="record", name="zigzag-dev-%d" % part, driver="zigzag", module="Trace_Pure", variant=DEV,
+                       args=dict(seed=seed * 10 + part + 50, part=part, near=10, pow=6)) for part in range(5)]
+    return dict(
+        mc=[dict(name="zigzag_w8", module="MC_ZigZag", workers=1, timeout=600, live=True,
+                 cfg_text="SPECIFICATION Spec\nCONSTANT WBits = 8\n"),
+            dict(name="zigzag_w12", module="MC_ZigZag", workers=1, timeout=600, live=True,
+                 cfg_text="SPECIFICATION Spec\nCONSTANT WBits = 12\n"),
+            dict(name="zigzag_w16", module="MC_ZigZag", workers=1, timeout=1800,
+                 cfg_text="SPECIFICATION Spec\nCONSTANT WBits = 16\n")],
+        rule="(a) TLC checks over the whole 8-, 12- and 16-bit types that the two maps are mutually inverse "
+             "bijections following the formula, and that the two's-complement vector forms agree with the integer "
+             "forms; (b) the real to_nat / to_int on every value of i8/u8 and i16/u16, and for 32-, 64-, 128-bit "
+             "and pointer-size types on all values within 2^near of 0, MIN, MAX and 2^pow of every power of two "
+             "plus random values, each event validated by TLC with the vector forms. The exhaustive 2^32 sweep of "
+             "the 32-bit types asked for by the quantifier is beyond TLC's throughput (see DESIGN.md).",
+        units=units,
+    )
+
+
+def c18(tier, seed):
+    q = tier == "quick"
+    return dict(
+        mc=[MC_CODES],
+        rule="vbyte_write{,_be,_le} and vbyte_read{,_be,_le} (and the generic entry points for both endianness "
+             "parameters) on all values below 2^dense, every length step +-2 up to 10 bytes, 2^64-1 and random "
+             "values; every terminated byte string of length <= maxlen (exhaustive) and random longer ones decoded "
+             "by both decoders and re-encoded (completeness), truncated strings rejected. TLC compares bytes, "
+             "values and lengths with Codes!VByteBytesBe/Le, Dec and LenVByte; the bit-stream VByte codes are "
+             "validated against the same definitions in the C03/C04 traces.",
+        units=shards("vbyteio", "vbyteio", 1 if q else 4, seed,
+                     dict(dense=12 if q else 16, maxlen=2 if q else 3, sample=3000 if q else 20000), module="Trace_Pure")
+              + code_units("alone", tier, seed + 4, 4, 8),
+    )
+
+
+def mc_changepoints(b, steps):
+    return dict(name="changepoints_b%d_s%d" % (b, steps), module="MC_ChangePoints", workers=4, timeout=3600, live=(b <= 5),
+                cfg_text='SPECIFICATION Spec\nCONSTANTS B = %d\n MaxSteps = %d\n V0 = 3\n StopOnOverflow = TRUE\n'
+                         ' StepSet <- AllSteps\nINVARIANTS YieldsOK NoMiss NoOverflow\nPROPERTY Terminates\n'
+                         'CHECK_DEADLOCK FALSE\n' % (b, steps))
+
+
+def c20(tier, seed):
+    q = tier == "quick"
+    return dict(
+        mc=[MC_CODES, mc_changepoints(4, 3), mc_changepoints(5, 2)] + ([mc_changepoints(6, 3), mc_changepoints(8, 2)] if not q else []),
+        rule="(a) TLC checks on the model of the iterator (value width B <= 8, every monotone step function "
+             "with <= 3 steps, constants included) safety (yields exactly the change points in order, none up to "
+             "2^(B-1) missed) and termination under fairness; (b) real length functions of every code x parameter "
+             "of the grid scanned below 2^upto: monotone, all change points listed and validated by TLC against "
+             "Codes!CLen (which is constant in between); (c) the real iterator on every library length function "
+             "and on synthetic step functions with steps around every power of two, constants and steps beyond "
+             "2^63, with a watchdog on evaluations; each yield and the end are validated by TLC, and Kraft's "
+             "inequality is evaluated by TLC in exact arithmetic over the brackets of each bounded length function.",
+        units=shards("changepoints", "changepoints", 1 if q else 3, seed, dict(full=0 if q else 1, upto=14 if q else 20),
+                     module="Trace_Pure"),
+    )
+
+
 ALL_VARIANTS = [(p, f) for p in ("release", "dev") for f in ("", "checks", "no_copy_impls", "checks,no_copy_impls")]
 
 
@@ -329,7 +472,7 @@ def c13(tier, seed):
     )
 
 
-PLANS = {"C13": c13, "C01": c01, "C02": c02, "C03": c03, "C04": c04, "C05": c05, "C06": c06, "C07": c07, "C08": c08,
+PLANS = {"C15": c15, "C17": c17, "C18": c18, "C20": c20, "C10": c10, "C11": c11, "C16": c16, "C13": c13, "C01": c01, "C02": c02, "C03": c03, "C04": c04, "C05": c05, "C06": c06, "C07": c07, "C08": c08,
          "C09": c09, "C12": c12, "C14": c14, "C19": c19}
 
 
